@@ -55,6 +55,24 @@ func secAlg(e *emitter) {
 			}
 		}
 	}
+	// long messages: lengths around every power of two up to 64K (keystream drawn in bursts, word/block/page
+	// boundaries, 16-bit length arithmetic) - NAS messages may be up to 65535 octets long
+	long := []int{255, 256, 257, 1023, 1024, 1025, 2047, 2048, 2049, 4095, 4096, 4097, 4098, 4099, 4100, 4101, 8191, 8192, 8193, 8197}
+	if e.thorough() {
+		long = append(long, 12288, 12289, 16383, 16384, 16385, 32767, 32768, 32769, 65534, 65535, 65536, 65537, 70001)
+	} else {
+		long = append(long, 16385, 65537)
+	}
+	for i, l := range long {
+		msg := e.bytes(l)
+		for _, alg := range []uint8{1, 2} {
+			dir := uint8((i + int(alg)) % 2)
+			k := keys[(l+int(alg))%3]
+			c := counts[(l+i)%len(counts)]
+			secAlgCase(e, false, alg, k, c, 1, dir, msg)
+			secAlgCase(e, true, alg, k, c, 1, dir, msg)
+		}
+	}
 	// random cases, including argument-check edges
 	for i := 0; i < e.n; i++ {
 		var k [16]byte
